@@ -7,13 +7,25 @@
    loops' fuel suffices (termination of the LR automaton); a case where the model runs out of fuel is a
    correspondence failure of corr_parse, so it cannot go unnoticed. *)
 From AidlV Require Import Spec.Master Proofs.Master Proofs.Totality Proofs.ParserState Model.ParserState Model.LrDriver
-  Proofs.Typing Proofs.DriverSafe.
+  Proofs.Typing Proofs.DriverSafe Proofs.ArityOk.
 
 (* validation of grammar-shaped trees cannot panic (index [0], unreachable!, unwrap on None) *)
 Theorem C01_validation_total : forall defined a ds0,
   wf_item (ai_item a) = true -> exists r, validate_file defined a ds0 = Ok r.
 Proof. exact validate_file_total. Qed.
 Print Assumptions C01_validation_total.
+
+(* ... and the trees the parser stores ARE grammar-shaped (any text, any tables: an invariant of the stack values), so the two
+   halves compose: validating a stored tree cannot panic *)
+Theorem C01_parsed_tree_is_grammar_shaped : forall cx id fr a,
+  add_content cx id = Added fr -> fr_ast fr = Some a -> wf_item (ai_item a) = true.
+Proof. exact add_content_wf. Qed.
+Print Assumptions C01_parsed_tree_is_grammar_shaped.
+
+Theorem C01_parsed_tree_validates : forall cx id fr a defined ds0,
+  add_content cx id = Added fr -> fr_ast fr = Some a -> exists r, validate_file defined a ds0 = Ok r.
+Proof. exact parsed_tree_validates. Qed.
+Print Assumptions C01_parsed_tree_validates.
 
 (* the returned collection has one result per held file, tagged with that file's id *)
 Theorem C01_ids : forall files r, validate files = Ok r -> map fr_id r = map fr_id files.
